@@ -143,6 +143,9 @@ class CNFLinear(BaseCNF):
             n = len(lits)
             if constant < 0 or constant > n:
                 return
+            # a private copy: literals are flipped in place (and the
+            # caller may have given a tuple or a range)
+            lits = list(lits)
             for flips in combinations(range(n), constant):
                 for i in flips:
                     lits[i] *= -1
